@@ -42,7 +42,7 @@
                                      AccountQueue cap, the GlobalSlots loops or the GlobalQueue truncation; and the
                                      converse "nothing but reinjected transactions enters the pool during reset". *)
 From Coq Require Import List ZArith.
-From AQ Require Import Pool.PoolModel Pool.PoolSpec Pool.PoolProofs Pool.PoolReorg Pool.PoolLimits.
+From AQ Require Import Pool.PoolModel Pool.PoolSpec Pool.PoolProofs Pool.PoolReorg Pool.PoolLimits Pool.PoolRun.
 Import ListNotations.
 Local Open Scope Z_scope.
 
@@ -139,6 +139,19 @@ Theorem C15_promote_next_keeps_run_partial : forall (p : pool) (a : Z) (t : tx),
   pn_ok p -> tnonce t = pn_get p a -> 0 <= tnonce t < two64 - 1 -> pn_ok (promote_tx p a t).
 Proof. exact promote_tx_pn. Qed.
 Print Assumptions C15_promote_next_keeps_run_partial.
+
+(* 1, ordering half, PARTIAL (third piece, the list-level core of the lemma that was missing for resets without
+      reinjection): on a strict (pending) list whose nonces are a run, txList.Forward(new chain nonce) followed by
+      txList.Filter(balance, gas limit) — the first two steps of demoteUnexecutables — leaves a run again (a suffix of the
+      old run cut back to a prefix: strict Filter drops everything above the lowest removed nonce), for every oracle.
+      Still missing for the full statement: lifting this through demote_account's pool bookkeeping (the Cap(0) gap
+      check then forces the run to start at the new chain nonce or empties the list), the virtual-nonce loop of reset,
+      and promote_executables_W. *)
+Theorem C15_demote_keeps_run_partial : forall (o : oracle) (l : txlist) (c n cl gl : Z) (old : list tx) (l1 : txlist) (drops invs : list tx) (l2 : txlist),
+  strict l = true -> run_from c (items l) ->
+  tl_forward l n = (old, l1) -> tl_filter o l1 cl gl = (drops, invs, l2) -> exists c', run_from c' (items l2).
+Proof. exact demote_lists_run. Qed.
+Print Assumptions C15_demote_keeps_run_partial.
 
 Example C15_pending_limit_example :
   exists p, run (new_pool cfg_slots 1 [(0, (0, 1000000000)); (1, (0, 1000000000))] 1000000) slots_history = Ok p /\
